@@ -780,8 +780,47 @@ def enclosing_loop_iters(node, fn_node):
     return out
 
 
+def _contiguity_form(fi, conj):
+    """Other spellings of "the group numbers are exactly 1..N": a (negated) equality between a collection built from the
+    parameter and a range(...).  The reference range must start at the literal 1 (or the test must also demand that the
+    smallest number is 1); a range that starts at the data's own minimum accepts [2,2,3,3]."""
+    param = fi.params[-1]
+    cmps = [c for c in nf.conjuncts(conj) if isinstance(c, ast.Compare) and len(c.ops) == 1 and isinstance(c.ops[0], ast.NotEq)]
+    ors = [c for c in nf.conjuncts(conj) if isinstance(c, ast.BoolOp) and isinstance(c.op, ast.Or)]
+    for o in ors:
+        cmps.extend(x for x in o.values if isinstance(x, ast.Compare) and len(x.ops) == 1 and isinstance(x.ops[0], ast.NotEq))
+    for c in cmps:
+        sides = [c.left, c.comparators[0]]
+        for a, b in (sides, sides[::-1]):
+            ranges = [n for n in ast.walk(b) if isinstance(n, ast.Call) and isinstance(n.func, ast.Name) and n.func.id == 'range']
+            if len(ranges) != 1 or param not in lib.names_in(a):
+                continue
+            rg = ranges[0]
+            if len(rg.args) == 1:
+                return ('DIFF', 'the reference range `%s` starts at 0: groups must be numbered 1..N' % unparse(rg))
+            if len(rg.args) < 2:
+                continue
+            start = rg.args[0]
+            if isinstance(start, ast.Constant) and start.value == 1 and not isinstance(start.value, bool):
+                return nf.MATCH
+            if isinstance(start, ast.Constant):
+                return ('DIFF', 'the reference range `%s` starts at %r: groups must be numbered 1..N' % (unparse(rg), start.value))
+            if param in lib.names_in(start):
+                # acceptable only together with an explicit "smallest number is 1" test
+                ones = [x for x in ast.walk(conj) if isinstance(x, ast.Compare) and len(x.ops) == 1 and isinstance(x.ops[0], ast.NotEq)
+                        and any(isinstance(y, ast.Constant) and y.value == 1 for y in [x.left] + x.comparators) and x is not c]
+                if ones:
+                    return None
+                return ('DIFF', "the contiguity test compares with `%s`, a range that starts at the data's own smallest number: "
+                                'groupings that are contiguous but do not start at 1 ([2, 2, 3, 3], [5, 5, 5, 5]) are accepted; groups '
+                                'must be numbered 1..N' % unparse(rg))
+    return None
+
+
 class Cross(object):
-    def __init__(self, key, func, pattern, what, classes=('ConfigError',), loop=None, inline=4, handler=None, optional=False):
+    def __init__(self, key, func, pattern, what, classes=('ConfigError',), loop=None, inline=4, handler=None, optional=False,
+                 recognise=None):
+        self.recognise = recognise  # optional callable(fi, conj) -> MATCH | ('DIFF', text) | None for forms outside the patterns
         self.optional = optional  # a reviewed raise site that is not a cross-option rule of the property (accounted for only)
         self.key = key
         self.func = func
@@ -830,7 +869,7 @@ CROSS_RULES = [
           'unordered lists only with a single subgrader'),
     Cross('grouping contiguity', LGQ + 'create_grouping_map',
           ['set(grouping) != set(range(1, max(set(grouping)) + 1))', 'set(grouping) != set(range(1, max(grouping) + 1))'],
-          'groups must be numbered 1..n without gaps'),
+          'groups must be numbered 1..n without gaps', recognise=_contiguity_form),
     Cross('grouping needs list-capable subgrader', LGQ + 'validate_grouping',
           "not self.subgrader_list and not isinstance(self.config['subgraders'], ListGrader)",
           'a single subgrader of a grouped ListGrader must be a ListGrader'),
@@ -1009,6 +1048,10 @@ def d5_cross(ctx, idx, fam):
                         if c.inline:
                             conj = lib.inline_locals(conj, owner.node, depth=c.inline)
                         res = nf.classify(list(c.patterns), conj)
+                        if res != nf.MATCH and c.recognise is not None and owner is fi:
+                            alt = c.recognise(owner, conj)
+                            if alt is not None:
+                                res = alt
                         if res == nf.MATCH:
                             exact.append((owner, rs, conj))
                             break
@@ -1898,6 +1941,10 @@ MUTANTS = [
     Mutant('whitelist-blacklist-or', MH, "    if blacklist and whitelist:\n        raise ConfigError", "    if blacklist or whitelist:\n        raise ConfigError", 'D5'),
     Mutant('unordered-check-removed', LG, "            if not self.config['ordered']:\n                raise ConfigError('Cannot use unordered lists with multiple graders')\n", "", 'D5'),
     Mutant('contiguity-unreachable', LG, "        if not group_nums == set(range(1, max(group_nums) + 1)):", "        if False:", 'D5'),
+    Mutant('seeded-C20c-contiguity-from-own-minimum', LG,
+           "        group_nums = set(grouping)\n        if not group_nums == set(range(1, max(group_nums) + 1)):",
+           "        group_nums = sorted(set(grouping))\n        if group_nums != list(range(group_nums[0], group_nums[-1] + 1)):", 'D5'),
+    Mutant('contiguity-from-zero', LG, "        if not group_nums == set(range(1, max(group_nums) + 1)):", "        if not group_nums == set(range(0, max(group_nums) + 1)):", 'D5'),
     Mutant('validate-grouping-not-called', LG, "            self.validate_grouping()\n", "", 'D5'),
     Mutant('nested-delimiters-inverted', LG, "                if subgrader.config['delimiter'] in delimiters:", "                if subgrader.config['delimiter'] not in delimiters:", 'D5'),
     Mutant('squarematrices-traceless-allowed', MSAM, "            if self.config['traceless']:\n                raise ConfigError(\"Unable to generate zero determinant traceless matrices\")\n", "", 'D5'),
@@ -1978,6 +2025,8 @@ BENIGN = [
            "        grade_decimal = validated_answer['grade_decimal']\n        if validated_answer['ok'] == 'computed' or grade_decimal != 1:\n            validated_answer['ok'] = self.grade_decimal_to_ok(grade_decimal)"),
     Benign('abstract-credit-base', ATT, "class LinearCredit(ObjectWithSchema):",
            "import abc\n\nclass _AttemptCredit(ObjectWithSchema):\n    @abc.abstractmethod\n    def _raw_credit(self, attempt):\n        pass\n\nclass LinearCredit(_AttemptCredit):"),
+    Benign('contiguity-sorted-list', LG, "        if not group_nums == set(range(1, max(group_nums) + 1)):",
+           "        if sorted(group_nums) != list(range(1, len(group_nums) + 1)):"),
     Benign('log-in-init', BASE, "        # Validate the configuration\n        self.config = self.validate_config(use_config)",
            "        _n = len(use_config) if isinstance(use_config, dict) else 0\n        self.config = self.validate_config(use_config)"),
 ]
